@@ -574,7 +574,7 @@ func c20ByteCase(r *common.Rand) c20Case {
 }
 
 func runC20B(run *common.Run) {
-	run.Rule = "Bigtable half of C20, emulator in child processes built with the race detector. Part 'fuzz': case = one hostile request (structure level: every data and admin RPC with nil sub-messages, nil list elements, empty oneofs, extreme/negative numbers, NaN, random/huge regexes, unknown tables; byte level: bit flips, truncation, insertion, deletion in the serialized form of a valid request, sent through a raw codec) followed by a probe (fixed table reads back exactly, a new write succeeds). Part 'mix': case = one round of concurrent admin+data traffic (create/delete/re-create a table while reading and mutating it; ModifyColumnFamilies while GetTable/CreateTable answers are marshalled; DropRowRange all/prefix while multi-message scans stream; consistency-token calls during create/delete). Monitors: child exit, panic/fatal text on its stderr, race-detector reports with a frame in the emulator, a gRPC status for every request (transport errors only if the child died), request hang (120 s + goroutine dump), probe. Non-trivial = case answered with an error status (fuzz) / round in which requests of at least three kinds overlapped (mix); distinct by case."
+	run.Rule = "Bigtable half of C20, emulator in child processes built with the race detector. Part 'fuzz': case = one hostile request (structure level: every data and admin RPC with nil sub-messages, nil list elements, empty oneofs, extreme/negative numbers, NaN, random/huge regexes, unknown tables; byte level: bit flips, truncation, insertion, deletion in the serialized form of a valid request, sent through a raw codec) followed by a probe (fixed table reads back exactly, a new write succeeds). Part 'mix': case = one round of concurrent admin+data traffic (create/delete/re-create a table while reading and mutating it; ModifyColumnFamilies while GetTable/CreateTable answers are marshalled; DropRowRange all/prefix while multi-message scans stream; consistency-token calls during create/delete; in every round a client that abandons multi-megabyte scans after 0-2 messages or lets a millisecond deadline expire). Monitors: child exit, panic/fatal text on its stderr, race-detector reports with a frame in the emulator, a gRPC status for every request (transport errors only if the child died), request hang (120 s + goroutine dump), probe. Non-trivial = case answered with an error status (fuzz) / round in which requests of at least three kinds overlapped (mix); distinct by case."
 	run.Assumptions = []string{"panics inside gRPC handlers are not recovered by the emulator, so a handler panic is observed as child exit", "the race detector only reports races that happen in the run"}
 	scratch, err := os.MkdirTemp("", "verif-c20b-")
 	if err != nil {
@@ -777,7 +777,13 @@ func c20MixRound(run *common.Run, ch *c20Child, round int, scenario int) (int, s
 	// enough rows for multi-message scans
 	var entries []drive.Entry
 	for i := 0; i < 1500; i++ {
-		entries = append(entries, drive.Entry{Key: fmt.Sprintf("a%05d", i), Muts: []model.Mut{{Kind: model.SetCell, Fam: "f1", Qual: "q", TS: 1000, Val: "v"}}})
+		muts := []model.Mut{{Kind: model.SetCell, Fam: "f1", Qual: "q", TS: 1000, Val: "v"}}
+		if i%2 == 0 {
+			// ~2.4 MB in total: far more than a stream's flow-control window, so that the server is still sending
+			// when a client walks away from a scan
+			muts = append(muts, model.Mut{Kind: model.SetCell, Fam: "f2", Qual: "big", TS: 1000, Val: gen.BigVal})
+		}
+		entries = append(entries, drive.Entry{Key: fmt.Sprintf("a%05d", i), Muts: muts})
 	}
 	drive.MutateRows(s.Data, tname, entries)
 	var hang atomic.Value
@@ -815,6 +821,26 @@ func c20MixRound(run *common.Run, ch *c20Child, round int, scenario int) (int, s
 	}
 	worker("scan", func(ctx context.Context, data btpb.BigtableClient, _ btapb.BigtableTableAdminClient, n int) error {
 		return drainRows(data.ReadRows(ctx, &btpb.ReadRowsRequest{TableName: tname}))
+	})
+	// clients that walk away from a scan: cancel after 0-2 messages, or let a very short deadline expire
+	worker("abandon", func(ctx context.Context, data btpb.BigtableClient, _ btapb.BigtableTableAdminClient, n int) error {
+		cctx, cancel := context.WithCancel(ctx)
+		if n%4 == 3 {
+			cancel()
+			cctx, cancel = context.WithTimeout(ctx, time.Duration(1+n%7)*time.Millisecond)
+		}
+		defer cancel()
+		st, err := data.ReadRows(cctx, &btpb.ReadRowsRequest{TableName: tname})
+		if err != nil {
+			return nil
+		}
+		for i := 0; i < n%3; i++ {
+			if _, err := st.Recv(); err != nil {
+				return nil
+			}
+		}
+		run.Count("scans_abandoned_by_the_client", 1)
+		return nil // the deferred cancel abandons the stream
 	})
 	worker("mutate", func(ctx context.Context, data btpb.BigtableClient, _ btapb.BigtableTableAdminClient, n int) error {
 		_, err := data.MutateRow(ctx, &btpb.MutateRowRequest{TableName: tname, RowKey: []byte(fmt.Sprintf("a%05d", n%1500)), Mutations: drive.MutsToProto([]model.Mut{{Kind: model.SetCell, Fam: "f1", Qual: "q", TS: 2000, Val: "w"}})})
